@@ -2,7 +2,7 @@
    (pointers are addresses, NULL = 0, sizes are size_t values) -> program returning
    the list [return value; extra results...]. *)
 From Coq Require Import List ZArith Bool.
-From SC Require Import ModQuery ModWstr ModEnv Base Cfg Comb ModStr ModMem ModTok ModTs ModSearch ModConv.
+From SC Require Import ModQuery ModWstr ModEnv ModExt Base Cfg Comb ModStr ModMem ModTok ModTs ModSearch ModConv.
 Import ListNotations.
 Local Open Scope Z_scope.
 Local Open Scope prog_scope.
@@ -19,7 +19,9 @@ Inductive fn :=
 | F_mbstowcs_s_u8 | F_mbstowcs_s_c | F_wcstombs_s_u8 | F_wcstombs_s_c | F_wcrtomb_s_u8 | F_wcrtomb_s_c | F_wctomb_s_u8 | F_wctomb_s_c
 | F_strcmp_s | F_strcasecmp_s | F_memcmp_s | F_strchr_s | F_strrchr_s | F_memchr_s | F_memrchr_s
 | F_strspn_s | F_strcspn_s | F_strpbrk_s | F_strprefix_s | F_strfirstdiff_s | F_strfirstsame_s | F_wcsnlen_s
-| F_wcscat_s | F_wcsncpy_s | F_wcsncat_s | F_getenv_s.
+| F_wcscat_s | F_wcsncpy_s | F_wcsncat_s | F_getenv_s
+| F_strtolowercase_s | F_strtouppercase_s | F_strset_s | F_strnset_s | F_strnterminate_s
+| F_strcpyfld_s | F_strcpyfldin_s | F_strcpyfldout_s | F_memccpy_s | F_wmemcpy_s | F_wmemmove_s | F_stpcpy_s | F_stpncpy_s.
 
 Definition arg (l : list Z) (i : nat) : Z := nth i l 0.
 Definition ret1 (p : prog Z) : prog (list Z) := r <- p ;; Ret [r].
@@ -76,6 +78,19 @@ Definition run_fn (c : cfg) (f : fn) (a : list Z) : prog (list Z) :=
   | F_wcsncpy_s => ret1 (wcsncpy_s c (arg a 0) (arg a 1) (arg a 2) (arg a 3) (arg a 4) (arg a 5))
   | F_wcsncat_s => ret1 (wcsncat_s c (arg a 0) (arg a 1) (arg a 2) (arg a 3) (arg a 4) (arg a 5))
   | F_getenv_s => ret1 (getenv_s c (arg a 0) (arg a 1) (arg a 2) (arg a 3) (arg a 4) (arg a 5))
+  | F_strtolowercase_s => ret1 (strtolowercase_s c (arg a 0) (arg a 1) (arg a 2))
+  | F_strtouppercase_s => ret1 (strtouppercase_s c (arg a 0) (arg a 1) (arg a 2))
+  | F_strset_s => ret1 (strset_s c (arg a 0) (arg a 1) (arg a 2) (arg a 3))
+  | F_strnset_s => ret1 (strnset_s c (arg a 0) (arg a 1) (arg a 2) (arg a 3) (arg a 4))
+  | F_strnterminate_s => ret1 (strnterminate_s c (arg a 0) (arg a 1) (arg a 2))
+  | F_strcpyfld_s => ret1 (strcpyfld_s c (arg a 0) (arg a 1) (arg a 2) (arg a 3) (arg a 4))
+  | F_strcpyfldin_s => ret1 (strcpyfldin_s c (arg a 0) (arg a 1) (arg a 2) (arg a 3) (arg a 4))
+  | F_strcpyfldout_s => ret1 (strcpyfldout_s c (arg a 0) (arg a 1) (arg a 2) (arg a 3) (arg a 4))
+  | F_memccpy_s => ret1 (memccpy_s c (arg a 0) (arg a 1) (arg a 2) (arg a 3) (arg a 4) (arg a 5) (arg a 6))
+  | F_wmemcpy_s => ret1 (wmemcpy_s c (arg a 0) (arg a 1) (arg a 2) (arg a 3) (arg a 4) (arg a 5))
+  | F_wmemmove_s => ret1 (wmemmove_s c (arg a 0) (arg a 1) (arg a 2) (arg a 3) (arg a 4) (arg a 5))
+  | F_stpcpy_s => ret1 (stpcpy_s c (arg a 0) (arg a 1) (arg a 2) (arg a 3) (arg a 4) (arg a 5))
+  | F_stpncpy_s => ret1 (stpncpy_s c (arg a 0) (arg a 1) (arg a 2) (arg a 3) (arg a 4) (arg a 5) (arg a 6))
   end.
 
 (* what the drivers call: configuration, allocation-failure oracle, function, arguments, memory *)
